@@ -36,3 +36,53 @@ Example negotiated_is_min_nonvacuous :
   c_state c = OpenSent /\ (c_expected_asn c = 0 \/ c_expected_asn c = 65001)
   /\ hold_in_force (c_local_hold c) 30 = 30.
 Proof. vm_compute. auto. Qed.
+
+(* ------------------------------------------- the driver before the fixes *)
+
+(* Finding C08-1.  With the driver reading Set*Timer(0) as sleep(0 s) (and an
+   FSM that leaves the 240 s OpenSent timer armed when the negotiated hold
+   time is 0) "zero disables it" is false: the witness is a peer that
+   advertises hold time 0. *)
+Definition pre_fix : cfg := {| c_arm := arm_sleep; c_loop_to_fsm := false |}.
+
+Definition w_p0 : pfsm := pfsm_new 200 65000 [] 90 65001 [].
+Definition w_zero : list ev :=
+  [EArrive [IMsg (MOpen 65001 100 0 [])]; ESelect; ETick 1; EArrive [IMsg MKeepalive]; ESelect].
+
+Lemma C08_zero_hold_dies_with_sleep0_driver :
+  exists p r t0 b evs,
+    slot p r = None /\
+    (let d := fst (task pre_fix p r t0 b evs) in
+     exists cn, d_live d = true /\ my_conn d = Some cn /\ after_open cn = true /\ c_neg_hold cn = 0
+                /\ d_hold d = TAt (d_now d))
+    /\ existsb timer_down (snd (task pre_fix p r t0 b (evs ++ [ESelect]))) = true.
+Proof.
+  exists w_p0, RActive, 0, false, w_zero. split; [reflexivity|]. split.
+  - vm_compute. eexists. repeat split.
+  - vm_compute. reflexivity.
+Qed.
+
+(* Finding C08-2.  With run_select dropping an UPDATE whose AS_PATH contains
+   the local AS before the FSM sees it, "re-armed by every UPDATE received" is
+   false: hold time 30, UPDATE received at t = 5, hold deadline still 30. *)
+Definition w_mp : list cap := [CMultiProtocol 65537].
+Definition w_p1 : pfsm := pfsm_new 200 65000 w_mp 90 65001 [].
+Definition w_loop : list ev :=
+  [EArrive [IMsg (MOpen 65001 100 30 w_mp); IMsg MKeepalive]; ESelect; ETick 5; EArrive [ILoop]; ESelect].
+
+Lemma C08_as_loop_update_does_not_rearm_before_fix :
+  exists p r t0 b evs,
+    slot p r = None /\
+    ~ hold_follows_rx (fst (task pre_fix p r t0 b evs)) (snd (task pre_fix p r t0 b evs))
+    /\ existsb timer_down (snd (task pre_fix p r t0 b (evs ++ [ETick 25; ESelect]))) = true.
+Proof.
+  exists w_p1, RActive, 0, false, w_loop. split; [reflexivity|]. split.
+  - intro H. unfold hold_follows_rx in H.
+    specialize (H {| c_state := Established; c_local_asn := 65000; c_local_id := 200; c_local_hold := 90;
+                     c_local_cap := w_mp; c_expected_asn := 65001; c_remote_asn := 65001; c_remote_id := 100;
+                     c_remote_hold := 30; c_remote_cap := []; c_neg_hold := 30; c_ka := 10 |}).
+    vm_compute in H.
+    destruct H as [t [Ht [_ Hd]]]; try reflexivity; try discriminate.
+    injection Ht as Ht. subst t. discriminate Hd.
+  - vm_compute. reflexivity.
+Qed.
